@@ -78,6 +78,8 @@ def option_items(tier):
             out.append((sp, dict(o, post_insert=lst)))
             out.append((sp, dict(o, post_insert=lst, reload=True)))
         # absence steps deleted from the result afterwards; the list given to simulate() may name steps beyond the end of the run
+        for lst in ([1, 3], [1], [3, 3, 1]):
+            out.append((sp, dict(o, absence=[1], post_insert=lst)))  # (step 1 is an absence step already)
         for lst in ([1], [0, 2], [1, 50], [2, 3, 60], [70], [2, 1, 2], [1, 1], [0, 3, 0, 3]):
             out.append((sp, dict(o, absence=lst, post_remove=True)))
     # backward runs (logs reversed into forward-time reading, and left as they are) of models whose cost profile is not a palindrome
